@@ -55,6 +55,23 @@ type ifaceDef struct {
 
 var pool = []string{"A", "B", "C", "D"}
 
+// knownOn reports whether the exclusion-by-construction of a known finding is active
+// (set by TestMain to rec.Known); countExcluded counts a skipped shape.
+var (
+	knownOn       = func(id string) bool { return true }
+	countExcluded = func(id string) {}
+	countLabel    = func(name string) {}
+)
+
+// excl is true when the shape belonging to known finding id must be avoided.
+func excl(id string) bool {
+	if knownOn(id) {
+		countExcluded(id)
+		return true
+	}
+	return false
+}
+
 // default signature of the pool names (kept mostly fixed so that interfaces are satisfiable)
 func defaultSig(name string) (params int, res string) {
 	switch name {
@@ -213,6 +230,20 @@ func (g *gen) genHierarchy() {
 		if g.Chance(1, 6, "iface-string") && !have["String"] {
 			id.methods = append(id.methods, methDef{name: "String", res: "string"})
 		}
+		if len(id.embeds) > 0 {
+			// known finding F-C09-9: explicit methods must all sort before the embedded ones
+			inconsistent := false
+			for _, m := range id.methods {
+				for _, em := range g.allIfaceMethodsOf(id.embeds) {
+					if m.name > em.name {
+						inconsistent = true
+					}
+				}
+			}
+			if inconsistent && excl("F-C09-9") {
+				id.embeds = nil
+			}
+		}
 		if len(id.methods) == 0 && len(id.embeds) == 0 {
 			m := methDef{name: "A"}
 			m.params, m.res = defaultSig("A")
@@ -225,6 +256,14 @@ func (g *gen) genHierarchy() {
 		&ifaceDef{name: g.Px + "StdError", std: "error", methods: []methDef{{name: "Error", res: "string"}}},
 		&ifaceDef{name: g.Px + "StdSort", std: "sort.Interface", methods: []methDef{{name: "Len", res: "int"}, {name: "Less", params: 2, res: "bool"}, {name: "Swap", params: 2}}},
 	)
+}
+
+func (g *gen) allIfaceMethodsOf(embeds []int) []methDef {
+	var out []methDef
+	for _, e := range embeds {
+		out = append(out, g.allIfaceMethods(e)...)
+	}
+	return out
 }
 
 func (g *gen) allIfaceMethods(i int) []methDef {
@@ -744,6 +783,10 @@ func (g *gen) siteFieldWrite() string {
 		name := pool[(start+k)%len(pool)]
 		s := g.look(r.ti, r.ptr, r.addr, name)
 		if s.kind == selField && s.ftyp != "" && (r.addr || s.indirect) {
+			if !r.addr && !r.ptr && excl("F-C09-5") {
+				// assignment through an embedded pointer of a non-addressable struct value
+				continue
+			}
 			g.noteSel(s)
 			g.Tag("field-write")
 			var st string
@@ -765,6 +808,10 @@ func (g *gen) pickMethod(r rexpr) (string, sel, bool) {
 		name := selNames[(start+k)%len(selNames)]
 		s := g.look(r.ti, r.ptr, r.addr, name)
 		if s.kind == selMethod {
+			if k := g.types[r.ti].kind; s.ptrRecv && !r.ptr && s.depth == 0 && (k == "int" || k == "string") && excl("F-C09-3") {
+				// pointer method on an addressable operand of a named basic type
+				continue
+			}
 			return name, s, true
 		}
 	}
@@ -858,6 +905,12 @@ func (g *gen) siteMethodExpr() string {
 	if recvArg == "" {
 		return ""
 	}
+	if strings.Contains(recvArg, "[\"k\"]") {
+		// f(m["k"]) with a named element type fails to compile in gomacro whatever f is:
+		// a defect of calls / map index expressions, outside this property
+		countLabel("excluded:map-index-expression-as-sole-call-argument(not C09)")
+		return ""
+	}
 	ms := types.NewMethodSet(g.typeOf(r.ti, usePtr))
 	start := g.Pick(len(selNames), "mname-start")
 	for k := 0; k < len(selNames); k++ {
@@ -867,6 +920,11 @@ func (g *gen) siteMethodExpr() string {
 		}
 		s := g.look(r.ti, usePtr, false, name)
 		if s.kind != selMethod {
+			continue
+		}
+		if usePtr != s.ptrRecv && excl("F-C09-1") {
+			// (*T).M with a value-receiver M, or T.M with a pointer method promoted
+			// through an embedded pointer
 			continue
 		}
 		g.noteSel(s)
@@ -928,6 +986,28 @@ func (g *gen) storeForms(r rexpr, idx int) []dyn {
 	if r.ptr && types.Implements(g.typeOf(r.ti, false), it) {
 		out = append(out, dyn{text: "*" + r.text, ti: r.ti, ptr: false, r: r})
 	}
+	if g.ifaces[idx].std != "" {
+		// compiled interface = proxy: the stored form must match the receiver kind of
+		// every method (known finding F-C09-4)
+		var ok []dyn
+		for _, d := range out {
+			bad := ""
+			for _, m := range g.allIfaceMethods(idx) {
+				if s := g.look(d.ti, d.ptr, false, m.name); s.kind == selMethod && s.ptrRecv != d.ptr {
+					if d.ptr {
+						bad = "F-C09-4" // pointer stored, value-receiver method
+					} else {
+						bad = "F-C09-10" // value stored, pointer method promoted through an embedded pointer
+					}
+				}
+			}
+			if bad != "" && excl(bad) {
+				continue
+			}
+			ok = append(ok, d)
+		}
+		out = ok
+	}
 	return out
 }
 
@@ -978,17 +1058,6 @@ func (g *gen) siteIface() string {
 			st += g.callsOn(iv, idx)
 			st += g.obsStmt(r)
 			switch id.std {
-			case "fmt.Stringer":
-				if g.Bool("sprint") {
-					st += fmt.Sprintf("rec.E(%d, fmt.Sprint(%s))\n", g.Ev(), iv)
-					g.Tag("compiled-code-calls-proxy")
-				}
-			case "error":
-				if g.Bool("sprint") {
-					g.useFmt = true
-					st += fmt.Sprintf("rec.E(%d, fmt.Sprintf(\"%%v|%%s\", %s, %s))\n", g.Ev(), iv, iv)
-					g.Tag("compiled-code-calls-proxy")
-				}
 			case "sort.Interface":
 				st += fmt.Sprintf("sort.Sort(%s)\nrec.E(%d, sort.IsSorted(%s))\n", iv, g.Ev(), iv)
 				st += g.obsStmt(r)
@@ -997,7 +1066,7 @@ func (g *gen) siteIface() string {
 			// follow-ups on the interface value
 			switch g.Pick(6, "iface-follow") {
 			case 0: // static conversion to a smaller interface
-				for c := 0; c < len(g.ifaces); c++ {
+				for c := 0; c < len(g.ifaces) && !(id.std == "" && excl("F-C09-6")); c++ {
 					jdx := (idx + 1 + c) % len(g.ifaces)
 					if jdx == idx {
 						continue
@@ -1109,6 +1178,53 @@ func (g *gen) obsTarget(y string, t target, full bool) []string {
 	return out
 }
 
+// shape is the reflect-level shape of a named type: interpreted named types are emulated
+// by their underlying types, field names are kept.
+func (g *gen) shape(ti int) string {
+	td := g.types[ti]
+	switch td.kind {
+	case "int", "string":
+		return td.kind
+	case "slice":
+		return "[]int"
+	}
+	s := "struct{"
+	for _, e := range td.embeds {
+		s += g.tname(e.ti) + ":"
+		if e.ptr {
+			s += "*"
+		}
+		s += g.shape(e.ti) + ";"
+	}
+	for _, f := range td.fields {
+		s += f.name + " " + f.typ + ";"
+	}
+	return s + "}"
+}
+
+func (g *gen) shapeOf(ti int, ptr bool, basic string) string {
+	if ti < 0 {
+		return basic
+	}
+	if ptr {
+		return "*" + g.shape(ti)
+	}
+	return g.shape(ti)
+}
+
+// confusable: t is a different type than the dynamic type of d but has the same
+// reflect-level shape (known finding F-C09-7, assertions from interface{} and from
+// compiled interfaces).
+func (g *gen) confusable(idx int, d dyn, t target) bool {
+	if idx >= 0 && g.ifaces[idx].std == "" {
+		return false
+	}
+	if d.matches(t) || d.basic == "nil" {
+		return false
+	}
+	return g.shapeOf(d.ti, d.ptr, d.basic) == g.shapeOf(t.ti, t.ptr, t.basic)
+}
+
 // assertSite: x.(T) with and without comma-ok on interface variable iv of interface idx
 // (-1: interface{}) holding d.
 func (g *gen) assertSite(iv string, idx int, d dyn) string {
@@ -1116,6 +1232,9 @@ func (g *gen) assertSite(iv string, idx int, d dyn) string {
 	var cand []target
 	for _, t := range ts {
 		if g.assertable(idx, t) {
+			if g.confusable(idx, d, t) && excl("F-C09-7") {
+				continue
+			}
 			cand = append(cand, t)
 		}
 	}
@@ -1184,6 +1303,15 @@ func (g *gen) typeSwitchSite(iv string, idx int, ds []dyn) string {
 	var cand []target
 	for _, t := range ts {
 		if g.assertable(idx, t) {
+			conf := false
+			for _, d := range ds {
+				if g.confusable(idx, d, t) {
+					conf = true
+				}
+			}
+			if conf && excl("F-C09-7") {
+				continue
+			}
 			cand = append(cand, t)
 		}
 	}
@@ -1214,7 +1342,18 @@ func (g *gen) typeSwitchSite(iv string, idx int, ds []dyn) string {
 	g.Tag("type-switch")
 	y := g.Local("y")
 	var b strings.Builder
-	fmt.Fprintf(&b, "switch %s := %s.(type) {\n", y, iv)
+	bind := true
+	if idx >= 0 && excl("F-C09-11") {
+		bind = false
+		g.Tag("type-switch-without-binding")
+	}
+	use := "\t_ = " + y + "\n"
+	if bind {
+		fmt.Fprintf(&b, "switch %s := %s.(type) {\n", y, iv)
+	} else {
+		use = ""
+		fmt.Fprintf(&b, "switch %s.(type) {\n", iv)
+	}
 	defaultAt := -1
 	if g.Chance(3, 4, "ts-default") || len(chosen) == 0 {
 		defaultAt = g.Pick(len(chosen)+1, "ts-default-at")
@@ -1223,7 +1362,7 @@ func (g *gen) typeSwitchSite(iv string, idx int, ds []dyn) string {
 	nilDone := !g.Chance(1, 3, "ts-nil")
 	i := 0
 	emitDefault := func() {
-		fmt.Fprintf(&b, "default:\n\t_ = %s\n\trec.E(%d, \"default\")\n", y, g.Ev())
+		fmt.Fprintf(&b, "default:\n%s\trec.E(%d, \"default\")\n", use, g.Ev())
 	}
 	pos := 0
 	for i < len(chosen) {
@@ -1234,19 +1373,22 @@ func (g *gen) typeSwitchSite(iv string, idx int, ds []dyn) string {
 		if !nilDone && g.Chance(1, 3, "ts-nil-here") {
 			nilDone = true
 			g.Tag("type-switch-case-nil")
-			fmt.Fprintf(&b, "case nil:\n\t_ = %s\n\trec.E(%d, \"nil-case\")\n", y, g.Ev())
+			fmt.Fprintf(&b, "case nil:\n%s\trec.E(%d, \"nil-case\")\n", use, g.Ev())
 		}
 		if i+1 < len(chosen) && g.Chance(1, 4, "ts-multi") {
 			g.Tag("type-switch-multi-type-case")
-			fmt.Fprintf(&b, "case %s, %s:\n\t_ = %s\n\trec.E(%d, \"multi\")\n", chosen[i].text, chosen[i+1].text, y, g.Ev())
+			fmt.Fprintf(&b, "case %s, %s:\n%s\trec.E(%d, \"multi\")\n", chosen[i].text, chosen[i+1].text, use, g.Ev())
 			i += 2
 			continue
 		}
 		t := chosen[i]
-		o := g.obsTarget(y, t, true)
+		var o []string
+		if bind {
+			o = g.obsTarget(y, t, true)
+		}
 		// a nil pointer of the case type cannot occur: stored pointers are non-nil
-		fmt.Fprintf(&b, "case %s:\n\t_ = %s\n\trec.E(%s)\n", t.text, y, strings.Join(append([]string{fmt.Sprint(g.Ev())}, o...), ", "))
-		if t.ti >= 0 {
+		fmt.Fprintf(&b, "case %s:\n%s\trec.E(%s)\n", t.text, use, strings.Join(append([]string{fmt.Sprint(g.Ev())}, o...), ", "))
+		if t.ti >= 0 && bind {
 			yr := rexpr{text: y, ti: t.ti, ptr: t.ptr, addr: true}
 			if name, s, ok := g.pickMethod(yr); ok && s.res != "" && name != "Less" {
 				g.noteSel(s)
